@@ -135,6 +135,11 @@ def compile_code(
 
     main_module = src[""] if isinstance(src, dict) else src
     if "pytrapic:" in main_module:
+        import dataclasses
+
+        # directives apply to this compilation only, never to the caller's object
+        options = dataclasses.replace(options)
+        option_names = {f.name for f in dataclasses.fields(options)}
         for line in main_module.splitlines():
             if "pytrapic:" not in line:
                 continue
@@ -154,7 +159,7 @@ def compile_code(
                 if not value:
                     tag = tag[3:].strip()
 
-                if hasattr(options, tag):
+                if tag in option_names:
                     setattr(options, tag, value)
 
     set_output_mode(OutputMode.COMPACT if options.compact else OutputMode.VERBOSE)
